@@ -60,6 +60,8 @@ class Path:
         self.obl = []       # (label, cond, n_pc, n_extra)
         self.calls = []     # records of hooked calls (callee replaced by its contract)
         self.call_defs = []  # what the hooked callees really compute; used only to search replayable counter-models
+        self.parent = None   # spec / precondition paths share the definitional symbols of the code path
+        self.memo = {}       # ('sqrt'|'div'|'abs', key) -> fresh symbol already introduced for that term
         self.notes = []
 
     def branch(self, cond):
@@ -83,6 +85,14 @@ class Path:
         self.i += 1
         self.pc.append(cond if d else ncond)
         return d
+
+    def lookup_def(self, key):
+        p = self
+        while p is not None:
+            if key in p.memo:
+                return p.memo[key]
+            p = p.parent
+        return None
 
     def oblige(self, label, cond):
         self.obl.append((label, cond, len(self.pc), len(self.extra)))
@@ -943,7 +953,7 @@ def havoc(name, shape, assume=None, requires=None, define=None):
     return hook
 
 
-def explore(run, max_paths=1500):
+def explore(run, max_paths=1500, parent=None):
     """Enumerate the paths of `run(interp)` by re-execution with decision prefixes.
     Returns a list of (Path, outcome) with outcome = ('ret', value) | ('raise', exc) | ('outside', msg)."""
     todo = [[]]
@@ -951,6 +961,7 @@ def explore(run, max_paths=1500):
     while todo:
         dec = todo.pop()
         p = Path(dec)
+        p.parent = parent
         CTX.path = p
         it = Interp(p)
         try:
